@@ -398,7 +398,24 @@ def _model_files(mf):
     return {k: (v.split(":")[0] if isinstance(v, str) and v.startswith("partial") else v) for k, v in mf.items()}
 
 
+def _corpus(ctx):
+    """corpus first: minimised past failures, replayed on the real code with real kills"""
+    from core.ctx import VERIF
+    d = os.path.join(VERIF, "corpus", ID)
+    cases = []
+    for fn in sorted(os.listdir(d)) if os.path.isdir(d) else []:
+        if fn.endswith(".json"):
+            rec = json.load(open(os.path.join(d, fn)))
+            cases += rec.get("cases", [rec] if "kills" in rec else [])
+    for case, r in _pool().map(lambda c: (c, oracle(c)), cases):
+        ctx.case(dict(corpus=True, **case))
+        ctx.stat("corpus")
+        if r:
+            ctx.counterexample(case, *r)
+
+
 def run(ctx):
+    _corpus(ctx)
     for cfg in _configs(ctx):
         _run_cfg(ctx, cfg)
 
